@@ -427,6 +427,153 @@ def run_cmac(ctx, mods, batch):
                               {'kind': 'cmac', 'key': hx(RFC4493_KEY), 'msg': hx(RFC4493_MSG[:n]), 'expect': hx(tag)})
 
 
+# ----------------------------------------------------------------------------- CMAC boundary cases
+def _xorb(a, b):
+    return bytes(x ^ y for x, y in zip(a, b))
+
+
+def ref_aes(lib, k, block):
+    """AES_k(block), most significant byte first, by the OpenSSL-based back end"""
+    return lib.e(k[::-1], block[::-1])[::-1]
+
+
+def ref_subkeys(lib, k):
+    """RFC 4493 Generate_Subkey computed independently of the code under test"""
+    def dbl(v):
+        n = int.from_bytes(v, 'big')
+        r = (n << 1) & ((1 << 128) - 1)
+        return (r ^ 0x87 if n >> 127 else r).to_bytes(16, 'big')
+    k1 = dbl(ref_aes(lib, k, bytes(16)))
+    return k1, dbl(k1)
+
+
+def cmac_boundary_messages(rng, lib, k):
+    """(label, message): the algebraic boundary cases of the _CMAC case split for key k -
+    zero CBC inputs (last / intermediate), all-zero and all-ones messages, last block equal
+    to a sub-key, CBC inputs with leading zero bytes."""
+    E = lambda b: ref_aes(lib, k, b)          # noqa: E731
+    k1, k2 = ref_subkeys(lib, k)
+    b1, b2, b3 = rng.bytes(16), rng.bytes(16), rng.bytes(16)
+    one_lo, one_hi = bytes(15) + b'\x01', b'\x80' + bytes(15)
+    out = [(f'zeros{n}', bytes(n)) for n in (0, 1, 15, 16, 17, 31, 32, 33, 48, 64)]
+    out += [(f'ones{n}', bytes([255] * n)) for n in (16, 32, 33)]
+    out += [
+        ('last-cbc-input-zero/2', b1 + E(b1)),
+        ('last-cbc-input-zero/3', b1 + b2 + E(_xorb(E(b1), b2))),
+        ('last-cbc-input-zero/zero-first', bytes(16) + E(bytes(16))),
+        ('intermediate-cbc-input-zero', b1 + E(b1) + b3),
+        ('intermediate-cbc-input-zero+partial', b1 + E(b1) + b3[:5]),
+        ('intermediate-cbc-input-zero+empty-tail', bytes(16) + b3),
+        ('last-cbc-input-low-bit', b1 + _xorb(E(b1), one_lo)),
+        ('last-cbc-input-high-bit', b1 + _xorb(E(b1), one_hi)),
+        ('last-cbc-input-one-byte', _xorb(bytes(16), bytes(7) + b'\x01' + bytes(8))),
+        ('last-block-is-K1', k1),
+        ('last-block-is-K2', k2),
+        ('K1-after-block', b1 + k1),
+        ('aes-input-zero-via-K1', b1 + _xorb(k1, E(b1))),
+        ('partial-is-K2-prefix', k2[:15]),
+        ('partial-is-K2-prefix/2', b1 + _xorb(k2, E(b1))[:9]),
+        ('pad-cancels-K2', _xorb(k2, bytes(3) + b'\x80' + bytes(12))[:3]),
+        ('message-is-L', E(bytes(16))),
+    ]
+    return out, (k1, k2)
+
+
+def boundary_keys(rng, lib):
+    """zero / ones / RFC key and one key for each (MSB(L), MSB(K1)) combination of the sub-key
+    derivation (the 0x87 branch taken or not, twice)"""
+    keys = [bytes(16), bytes([255] * 16), RFC4493_KEY]
+    want = {(0, 0), (0, 1), (1, 0), (1, 1)}
+    for _ in range(200):
+        if not want:
+            break
+        k = rng.bytes(16)
+        L = ref_aes(lib, k, bytes(16))
+        k1, _ = ref_subkeys(lib, k)
+        c = (L[0] >> 7, k1[0] >> 7)
+        if c in want:
+            want.discard(c)
+            keys.append(k)
+    return keys
+
+
+def single_byte_blocks(values):
+    return [bytes(p) + bytes([v]) + bytes(15 - p) for p in range(16) for v in values]
+
+
+def run_cmac_boundary(ctx, mods, batch):
+    rng = ctx.rng
+    bi, lib = mods['builtin'], mods['cryptography']
+    cases = []           # (key, label, message)
+    for k in boundary_keys(rng, lib):
+        msgs, (k1, k2) = cmac_boundary_messages(rng, lib, k)
+        cases += [(k, lab, m) for lab, m in msgs]
+    # one-block messages with a single non-zero byte: quick - 3 values per position under the
+    # zero key; thorough - every value at every position under two keys
+    vals = [1, 0x80, 0xFF] if ctx.quick() else list(range(1, 256))
+    for k in ([bytes(16)] if ctx.quick() else [bytes(16), rng.bytes(16)]):
+        cases += [(k, 'single-byte-block', m) for m in single_byte_blocks(vals)]
+
+    def fin(model):
+        for (k, lab, m), mv in zip(cases, model):
+            rb = canon(outcome(bi.aes_cmac, m, k))
+            ctx.count('cmac.boundary.model')
+            if model_opt(mv) != rb:
+                ctx.disagree(f'builtin.aes_cmac [{lab}]', {'key': hx(k), 'msg': hx(m)}, model_opt(mv), rb)
+    for k, lab, m in cases:
+        rb, rc = canon(outcome(bi.aes_cmac, m, k)), canon(outcome(lib.aes_cmac, m, k))
+        ctx.case(('cmac-boundary', k, m), True, {'kind': 'cmac', 'key': hx(k), 'msg': hx(m), 'class': lab} if lab == 'last-cbc-input-zero/2' and k == bytes(16) else None)
+        ctx.count('cmac.boundary.' + lab.split('/')[0])
+        if rb != rc or rb[0] != 'ok':
+            ctx.violation(f'cmac:boundary:{lab}', f'aes_cmac [{lab}] (len {len(m)}, key {hx(k)}, msg {hx(m)}): builtin {_show(rb)} != cryptography {_show(rc)}',
+                          {'kind': 'cmac', 'key': hx(k), 'msg': hx(m), 'class': lab})
+        # the same message through update() calls on one _CMAC object, cut at and inside blocks
+        if lab != 'single-byte-block' and len(m) > 0:
+            for cuts in ([16], [1], [len(m) - 1], [16, 32], [0, 16, 16, len(m)], [15, 17]):
+                pts = [0] + sorted(min(c, len(m)) for c in cuts) + [len(m)]
+                chunks = [m[a:b] for a, b in zip(pts, pts[1:])]
+                got = canon(outcome(builtin_chunked, bi, k, chunks))
+                ctx.count('cmac.boundary.chunked')
+                if got != rc:
+                    ctx.violation(f'cmac:boundary-chunked:{lab}', f'_CMAC [{lab}] updated with chunks {[len(c) for c in chunks]}: {_show(got)} != cryptography {_show(rc)}',
+                                  {'kind': 'cmac-chunked', 'key': hx(k), 'chunks': [hx(c) for c in chunks], 'class': lab})
+                    break
+    batch.defer([f'aes_cmac_builtin {coq_bytes(m)} {coq_bytes(k)}' for k, _, m in cases], fin)
+    # chunked variants in the model too (a sample: the crafted ones under the first two keys)
+    chunked = []
+    for k, lab, m in cases:
+        if lab.startswith(('last-cbc', 'intermediate', 'zeros32', 'zeros16', 'aes-input', 'last-block')) and k in (bytes(16), RFC4493_KEY):
+            chunked.append((k, [m[:16], m[16:]]))
+            chunked.append((k, [m[:7], m[7:16], b'', m[16:]]))
+
+    def fin_chunked(model):
+        for (k, chunks), mv in zip(chunked, model):
+            rb = canon(outcome(builtin_chunked, bi, k, chunks))
+            ctx.count('cmac.boundary.chunked_model')
+            if model_opt(mv) != rb:
+                ctx.disagree('builtin._CMAC.update sequence [boundary]', {'key': hx(k), 'chunks': [hx(c) for c in chunks]}, model_opt(mv), rb)
+    batch.defer([f'aes_cmac_chunked_builtin {coq_list(ch, coq_bytes)} {coq_bytes(k)}' for k, ch in chunked], fin_chunked)
+
+
+TOOLBOX_SIZES = {'ah': (16, 3), 'c1': (16, 16, 7, 7, None, None, 6, 6), 's1': (16, 16, 16), 'f4': (32, 32, 16, 1),
+                 'f5': (32, 16, 16, 7, 7), 'f6': (16, 16, 16, 16, 3, 7, 7), 'g2': (32, 32, 16, 16), 'h6': (16, 4), 'h7': (16, 16)}
+
+
+def toolbox_boundary_cases():
+    """every function with all-zero / all-0xFF arguments, and each argument in turn zero (0xFF)
+    while the others are 0xFF (zero)"""
+    out = []
+    for fn, sizes in TOOLBOX_SIZES.items():
+        def mk(fill_of, sizes=sizes):
+            return tuple(fill_of(i) if n is None else bytes([fill_of(i)] * n) for i, n in enumerate(sizes))
+        out.append((fn, mk(lambda i: 0)))
+        out.append((fn, mk(lambda i: 255)))
+        for j in range(len(sizes)):
+            out.append((fn, mk(lambda i, j=j: 0 if i == j else 255)))
+            out.append((fn, mk(lambda i, j=j: 255 if i == j else 0)))
+    return out
+
+
 # ----------------------------------------------------------------------------- toolbox
 def gen_toolbox_case(rng, fn):
     def b(n):
@@ -472,9 +619,9 @@ def toolbox_model_outcome(fn, v):
 
 def run_toolbox(ctx, mods, batch):
     rng = ctx.rng
-    cases = [(fn, args) for fn, args, _ in CORE_SAMPLES]
+    cases = [(fn, args) for fn, args, _ in CORE_SAMPLES] + toolbox_boundary_cases()
     for fn in TOOLBOX:
-        for _ in range(ctx.n(12, 250)):
+        for _ in range(ctx.n(8, 250)):
             cases.append((fn, gen_toolbox_case(rng, fn)))
     n_prop = len(cases)
     # malformed arguments (Python raises): model correspondence only
@@ -1095,6 +1242,8 @@ def run_rpa(ctx, mods, batch):
             pos = rng.below(3)
             keys = others[:pos] + [irk] + others[pos:2]
             tb = rng.bytes(6)
+            if i < 8:       # every combination of the two bits generate_prand rewrites
+                tb = tb[:2] + bytes([[0x00, 0x3F, 0x40, 0x7F, 0x80, 0xBF, 0xC0, 0xFF][i]]) + tb[3:]
             per_backend = {}
             for name, mod in mods.items():
                 with use_backend(mod):
@@ -1275,7 +1424,10 @@ def run(ctx):
         '(plus 24/32-byte keys, non-block data and rejected key sizes for the model only). aes_cmac: every length 0..80, '
         'lengths 16k-1/16k/16k+1 up to 4 KiB (quick: 9 values of k, thorough: every k 6..256), random keys and structured/'
         'random messages, RFC 4493 examples, update() sequences cut at and around block boundaries on the real _CMAC. '
-        'toolbox: ah c1 s1 f4 f5 f6 g2 h6 h7 on random/structured arguments of the Security Manager sizes under both back '
+        'cmac boundary: for the zero / ones / RFC key and one key per (MSB(L), MSB(K1)) branch combination - all-zero messages of '
+        '0..64 bytes, messages crafted with the other back end so that the last / an intermediate CBC input is zero or has a single '
+        'bit, the last block equals K1 / K2 or cancels them, all also through update() sequences; one-block messages with a single '
+        'non-zero byte at each position (thorough: every value). toolbox: all-zero / all-0xFF arguments and each argument in turn; ah c1 s1 f4 f5 f6 g2 h6 h7 on random/structured arguments of the Security Manager sizes under both back '
         'ends + Core sample data + malformed sizes (model only). P-256: Jacobian double/add/to_affine on random on- and '
         'off-curve Jacobian points incl. infinity, y=0, equal and inverse points in different representations; scalar '
         'multiples 0..12 and random 12-bit; public keys and ECDH for scalars 1,2,..,n-1,n-2, powers of two, random; '
@@ -1305,6 +1457,7 @@ def run(ctx):
     run_corpus(ctx, mods)
     run_e(ctx, mods, batch, ctx.n(60, 3000))
     run_cmac(ctx, mods, batch)
+    run_cmac_boundary(ctx, mods, batch)
     run_toolbox(ctx, mods, batch)
     run_rpa(ctx, mods, batch)
     run_ec_steps(ctx, mods, batch)
